@@ -11,7 +11,6 @@ itself reports.
 import numpy as np
 
 from vf import vihelp as vh
-from vf.runner import Skip
 
 META = dict(
     id="C19", level="exploration",
@@ -29,8 +28,8 @@ META = dict(
                  "Poissonian models use rate exp(s) with |s| kept moderate by the generator"],
     need=["cl_value", "cl_gradient", "cl_metric", "cl_at_residuals", "cl_constants_minimise",
           "re_value_grad", "re_metric", "re_constants_reduced", "re_constants_minimise", "re_at"],
-    quick=dict(cases=420, workers=8, budget_s=60),
-    thorough=dict(cases=12000, workers=16, budget_s=780),
+    quick=dict(cases=900, workers=8, budget_s=75),
+    thorough=dict(cases=40000, workers=16, budget_s=780),
     design_ref="DESIGN.md §5 C19",
     level_text=("every generated case compares value, gradient and dense metric of the live KL object "
                 "with an independent average; exploration of models x key splits x sample lists"),
@@ -62,6 +61,10 @@ def _subset(rng, keys, p_empty=0.4, proper=False):
 
 
 def case(ck, i):
+    return vh.run_case(ck, _case, i)
+
+
+def _case(ck, i):
     rng = ck.rng()
     forced = {0: ("re", dict(const=True, ns=2)), 1: ("cl", dict(const=True, route="drawn")),
               2: ("cl", dict(const=True, route="hand")), 3: ("re", dict(const=True, ns=3))}.get(i)
